@@ -113,6 +113,14 @@ def run(chk):
     r = P.call(FILE, "sensitivity_transform", cn, "o")
     chk.ob("C11.N.copy-naming", "sensitivity_transform::startpoints a, a_b, b_c, c", r[0] == "return", file=FILE, func="sensitivity_transform", line=ft.node.lineno, fact={"result": str(r)[:160]},
            expect="the transform of a lint-clean circuit (the copies of the circuit are named apart whatever the node names are)")
+    cn2 = _b2({"a": ("input", []), "a_b": ("input", []), "b_a": ("and", ["a", "a_b"]), "o": ("buf", ["b_a"])}, outputs=["o"])
+    r = P.call(FILE, "sensitivity_transform", cn2, "o")
+    chk.ob("C11.N.copy-naming", "sensitivity_transform::startpoints a, a_b and a node b_a", r[0] == "return", file=FILE, func="sensitivity_transform", line=ft.node.lineno, fact={"result": str(r)[:160]},
+           expect="the transform of a lint-clean circuit (the copies of the circuit are named apart whatever the node names are)")
+    cn3 = _b2({"sat": ("input", []), "b": ("input", []), "o": ("and", ["sat", "b"])}, outputs=["o"])
+    r = P.call(FILE, "sensitization_transform", cn3, "o")
+    chk.ob("C11.N.copy-naming", "sensitization_transform::an input named sat", r[0] == "return", file=FILE, func="sensitization_transform", line=fz.node.lineno, fact={"result": str(r)[:160]},
+           expect="the transform of a lint-clean circuit (the miter's helper nodes are named apart whatever the node names are)")
     # second pass over the repository's own Circuit class for a few circuits
     from ..pkgenv import FullStackCaller
 
@@ -276,6 +284,17 @@ def per_circuit(chk, P, kname, c, fz, ft):
             chk.ob("C11.M.avg_sensitivity", f"avg_sensitivity::{kname}::{n}", ok, file="props.py", func="avg_sensitivity", fact={"result": str(r)[:80], "expected": str(tot)}, expect=str(tot))
         # several nodes in one call (their cones share startpoints): a dict per node, each as for the single-node call
         many = sorted(wants_by_node)
+        # the list form holding ONE node: the sum of its influences, as a number or as a one-entry dict (the documentation leaves
+        # the form open for a one-element list; an exception is not among the forms)
+        if many:
+            n1 = many[-1]
+            r = P.call("props.py", "avg_sensitivity", c, [n1], False, False)
+            n_eval += 1
+            tot1 = sum(wants_by_node[n1].values())
+            v1 = r[1].get(n1) if r[0] == "return" and isinstance(r[1], dict) else r[1] if r[0] == "return" else None
+            ok = isinstance(v1, (int, float)) and Fraction(v1).limit_denominator(1 << 20) == tot1
+            chk.ob("C11.M.avg_sensitivity", f"avg_sensitivity::{kname}::list holding one node", ok, file="props.py", func="avg_sensitivity", fact={"result": str(r)[:120], "expected": str(tot1)},
+                   expect="the sum of the node's influences")
         if len(many) >= 2:
             for order_name, ns_list in (("sorted", many), ("reversed", many[::-1])):
                 r = P.call("props.py", "influence", c, list(ns_list), False, False)
